@@ -1,8 +1,8 @@
 (* C07 — receive buffering is bounded by the configured limit (separator-framed readers, copying path fully;
    buffer-filling path: the allocation is the bound by construction, acceptance proved in the safe band). *)
-From Coq Require Import List Arith.
-From EN Require Import Lib.Bytes Frame.Framer Frame.ReadUntil Frame.BufReadUntil Stream.Consumer Stream.SpecDecode
-  Proofs.ReadUntil_proofs Proofs.C07_proofs.
+From Coq Require Import List Arith ZArith.
+From EN Require Import Lib.Bytes Frame.Framer Frame.ReadUntil Frame.BufReadUntil Frame.JsonRaw Frame.Generic
+  Stream.Consumer Stream.SpecDecode Proofs.ReadUntil_proofs Proofs.C07_proofs Proofs.C06_progress Proofs.C07_extra.
 Import ListNotations.
 
 (* Whatever bytes arrive, in whatever non-empty chunks (no assumption on the stream at all: oversized, malformed,
@@ -84,6 +84,102 @@ Theorem overrun_is_raised_buffered :
       exists c' evs, bcfills (bru_framer sep limit keep_end dec) sizehint fuel (bcinit _) fills = (c', RErr ELimit :: evs).
 Proof. intros P sep limit sizehint keep_end dec Hne Hl fills fuel. exact (overrun_raised_buffered_l sep limit sizehint keep_end dec Hne Hl fills fuel). Qed.
 Print Assumptions overrun_is_raised_buffered.
+
+(* ======================= raw JSON (JSONSerializer(use_lines=False), _JSONParser.raw_parse) ======================= *)
+
+(* For ANY chunk list, after each receive round the copying consumer has no leftover buffer and the suspended raw_parse
+   holds at most [limit] bytes (+ the current read while a call is running), in both phases. *)
+Theorem held_bound_json :
+  forall (P : Type) (limit : nat) (dec : decoder P) (chunks : list bytes) (fuel : nat),
+    Forall (fun ch => ch <> []) chunks -> length (concat chunks) <= fuel ->
+    exists c' evs,
+      cdeliver (json_framer limit dec) fuel (cinit _) chunks = (c', evs) /\ cbuf c' = [] /\
+      match ccons c' with
+      | Some (JEnc doc _) | Some (JPlain doc) => length doc <= limit
+      | _ => True
+      end.
+Proof. intros P limit dec chunks fuel. exact (json_held_bound_l limit dec chunks fuel). Qed.
+Print Assumptions held_bound_json.
+
+(* An enclosure that never closes (also: whitespace only): limit error on the read that takes the received data beyond
+   [limit] bytes, for every chunking. *)
+Theorem overrun_is_raised_json :
+  forall (P : Type) (limit : nat) (dec : decoder P) (chunks : list bytes) (fuel : nat) (c : jcount),
+    Forall (fun ch => ch <> []) chunks ->
+    jscan [] (concat chunks) jcount0 = JSMore c -> limit < length (concat chunks) ->
+    exists c' evs, cdeliver (json_framer limit dec) fuel (cinit _) chunks = (c', RErr ELimit :: evs).
+Proof. intros P limit dec chunks fuel c. exact (json_overrun_raised_l limit dec chunks fuel c). Qed.
+Print Assumptions overrun_is_raised_json.
+
+(* A plain value (number / literal) that never ends: limit error once the value itself exceeds [limit]. *)
+Theorem overrun_is_raised_json_plain :
+  forall (P : Type) (limit : nat) (dec : decoder P) (chunks : list bytes) (fuel off : nat),
+    Forall (fun ch => ch <> []) chunks ->
+    jscan [] (concat chunks) jcount0 = JSPlain off -> find_nonvalue (skipn off (concat chunks)) = None ->
+    limit < length (concat chunks) - off ->
+    exists c' evs, cdeliver (json_framer limit dec) fuel (cinit _) chunks = (c', RErr ELimit :: evs).
+Proof. intros P limit dec chunks fuel off. exact (json_overrun_raised_plain_l limit dec chunks fuel off). Qed.
+Print Assumptions overrun_is_raised_json_plain.
+
+(* A document whose closing byte is among the first [limit] bytes is never rejected for its size, whatever the chunking
+   and whatever follows it in the same read. *)
+Theorem safe_never_rejected_json :
+  forall (P : Type) (limit : nat) (dec : decoder P) (chunks : list bytes) (fuel n : nat),
+    Forall (fun ch => ch <> []) chunks ->
+    jscan [] (concat chunks) jcount0 = JSClosed n -> n <= limit ->
+    exists c' r evs, cdeliver (json_framer limit dec) fuel (cinit _) chunks = (c', r :: evs) /\ r <> RErr ELimit /\ r <> RStop.
+Proof. intros P limit dec chunks fuel n. exact (json_safe_never_rejected_l limit dec chunks fuel n). Qed.
+Print Assumptions safe_never_rejected_json.
+
+(* Plain value: band = leading whitespace <= limit and value length <= limit. *)
+Theorem safe_never_rejected_json_plain :
+  forall (P : Type) (limit : nat) (dec : decoder P) (chunks : list bytes) (fuel off idx : nat),
+    Forall (fun ch => ch <> []) chunks ->
+    jscan [] (concat chunks) jcount0 = JSPlain off -> find_nonvalue (skipn off (concat chunks)) = Some idx ->
+    off <= limit -> idx <= limit ->
+    exists c' r evs, cdeliver (json_framer limit dec) fuel (cinit _) chunks = (c', r :: evs) /\ r <> RErr ELimit /\ r <> RStop.
+Proof. intros P limit dec chunks fuel off idx. exact (json_safe_never_rejected_plain_l limit dec chunks fuel off idx). Qed.
+Print Assumptions safe_never_rejected_json_plain.
+
+(* ======================= file based (FileBasedPacketSerializer through the generic wrapper) ======================= *)
+(* the loader (load_from_file) is arbitrary; hypotheses = it reports a position inside the buffer on EOF and consumes
+   at least one byte when it returns or raises *)
+Theorem held_bound_filebased :
+  forall (P : Type) (limit : nat) (load : bytes -> lres P) (expected : Z -> bool),
+    (forall content pos, load content = LEof pos -> pos <= length content) ->
+    (forall content p pos, load content = LDone p pos -> 1 <= pos) ->
+    (forall content k pos, load content = LRaise k pos -> 1 <= pos) ->
+    forall (chunks : list bytes) (fuel : nat),
+      Forall (fun ch => ch <> []) chunks -> length (concat chunks) <= fuel ->
+      exists c' evs,
+        cdeliver (wrap_generic (fb_framer limit load expected)) fuel (cinit _) chunks = (c', evs) /\ cbuf c' = [] /\
+        match ccons c' with Some (Some (content, _)) => length content <= limit | _ => True end.
+Proof. intros P limit load expected H1 H2 H3 chunks fuel. exact (fb_held_bound_l limit load expected H1 H2 H3 chunks fuel). Qed.
+Print Assumptions held_bound_filebased.
+
+(* A record that never completes: limit error on the read that takes the accumulated data beyond [limit]. *)
+Theorem overrun_is_raised_filebased :
+  forall (P : Type) (limit : nat) (load : bytes -> lres P) (expected : Z -> bool) (chunks : list bytes) (fuel : nat),
+    Forall (fun ch => ch <> []) chunks ->
+    (forall k, k <= length (concat chunks) -> load (firstn k (concat chunks)) = LEof k) ->
+    limit < length (concat chunks) ->
+    exists c' evs, cdeliver (wrap_generic (fb_framer limit load expected)) fuel (cinit _) chunks = (c', RErr ELimit :: evs).
+Proof. intros P limit load expected chunks fuel. exact (fb_overrun_raised_l limit load expected chunks fuel). Qed.
+Print Assumptions overrun_is_raised_filebased.
+
+(* No limit error while everything received since the previous event fits in [limit]. (Cut dependent above that: what is
+   checked is the accumulated buffer = record + whatever arrived in the same reads; Example fb_limit_depends_on_the_read.) *)
+Theorem safe_never_rejected_filebased :
+  forall (P : Type) (limit : nat) (load : bytes -> lres P) (expected : Z -> bool),
+    (forall content pos, load content = LEof pos -> pos <= length content) ->
+    forall (chunks : list bytes) (fuel : nat) r,
+      Forall (fun ch => ch <> []) chunks -> length (concat chunks) <= limit ->
+      first_event (wrap_generic (fb_framer limit load expected)) None chunks = Some r ->
+      exists c' evs, cdeliver (wrap_generic (fb_framer limit load expected)) fuel (cinit _) chunks
+                     = (c', nres_of (wrap_generic (fb_framer limit load expected)) r :: evs) /\
+                     nres_of (wrap_generic (fb_framer limit load expected)) r <> RErr ELimit.
+Proof. intros P limit load expected H1 chunks fuel r. exact (fb_safe_never_rejected_l limit load expected H1 chunks fuel r). Qed.
+Print Assumptions safe_never_rejected_filebased.
 
 (* non-vacuity / tightness witnesses *)
 Example overrun_witness :
